@@ -131,6 +131,11 @@ def run(ctx):
             n, dis, _ = core.compare_construct(flat, "s", ctx.tally)
             for v, s, mo, io_ in dis:
                 ctx.disagree("model-vs-code:v%s:scores" % v, s, mo, io_)
+    from .. import conc
+    fl = []
+    for ver, fam, s, t, slots in cases[:: max(1, len(cases) // ctx.n(120, 1200))]:
+        fl += [["S", ver, s], ["S", ver, t]]
+    conc.flag_variants(ctx, [op for op in fl if core.sendable(op[2])], "substitutions")
     for ver, fam, s, t, slots in cases:
         ctx.nontrivial((ver, fam, t))
         ctx.tally.add("family:" + fam)
